@@ -367,6 +367,7 @@ func C19() *engine.Check {
 			mk("ciphertext-modifications", "ciphertext-mods", "every single-bit flip of the stored value (nonce, tag and body regions), every truncation length, a 1-byte extension at either end, every rotation of the stored bytes (the nonce moved behind the box, the tag moved in front, ...), the nonce / tag / body parts in every other order and the reversed value must make decryption fail; non-trivial = all", modLens),
 			c19TokenSub(),
 			c19BigSub(),
+			c19ShortRandSub(),
 			c19SeqSub(),
 			c19ReadSeqSub(),
 			c19PrefixSub(),
